@@ -182,6 +182,17 @@ Theorem pregel_bounded_log :
 Proof. exact pregel_nest_log_bounded. Qed.
 Print Assumptions pregel_bounded_log.
 
+(* the bound is exact: a run that survives max_steps supersteps fails with the max-steps error right there,
+   having logged exactly max_steps supersteps (the model's loop fuel IS the implementation's bound) *)
+Theorem pregel_limit_exact :
+  forall V St ops exec sched f F p g x s ls,
+    pregel_graph g ->
+    reachable V St ops exec (nest_sub V St ops exec sched f F) sched p g x s (max_steps g) ls ->
+    run_nest V St ops exec sched (S f) F p g x s = (Fail [mkerr eMaxSteps] (ls_log V St ls), ls_st V St ls) /\
+    own_entries V p (ls_log V St ls) = S (max_steps g).
+Proof. exact pregel_nest_limit_exact. Qed.
+Print Assumptions pregel_limit_exact.
+
 Theorem pregel_bounded_nested :
   forall V St ops exec sched f F p g x s,
     pregel_graph g ->
@@ -189,6 +200,47 @@ Theorem pregel_bounded_nested :
               (run_nest V St ops exec sched (S f) F p g x s).
 Proof. exact pregel_nest_run_shape. Qed.
 Print Assumptions pregel_bounded_nested.
+
+(* the frontier and END theorems for a graph anywhere in a forest (sub-graph nodes run the nested engine):
+   no hypothesis about sub-graphs is left *)
+Theorem pregel_frontier_nested :
+  forall V St ops exec sched f F p g (ls ls' : loopstate V St) results sublog s',
+    pregel_graph g -> pregel_inv V St ls ->
+    submit V St ops exec (nest_sub V St ops exec sched f F) p g (ls_next V St ls) (ls_st V St ls) = (results, sublog, s') ->
+    step V St ops exec (nest_sub V St ops exec sched f F) sched p g ls = Continue ls' ->
+    let outs := task_outputs V results in
+    pregel_inv V St ls' /\
+    ls_step V St ls' = S (ls_step V St ls) /\
+    akeys outs = akeys (ls_next V St ls) /\
+    ls_log V St ls' = ls_log V St ls ++ [step_entry V p (ls_next V St ls)] ++ sublog /\
+    (forall t, In t (akeys (ls_next V St ls')) <-> sent V ops g outs t <> []) /\
+    (forall t v, In (t, v) (ls_next V St ls') ->
+       exists m, get_merge V ops (collect (sent V ops g outs t)) = Ok m /\ v = pre_node V ops g t m) /\
+    outs_legal V ops g outs.
+Proof. exact pregel_nest_frontier. Qed.
+Print Assumptions pregel_frontier_nested.
+
+Theorem pregel_end_first_nested :
+  forall V St ops exec sched f F p g x s v l s',
+    pregel_graph g ->
+    run_nest V St ops exec sched (S f) F p g x s = (Done v l, s') ->
+    (l = [run_marker V p] /\ s' = s /\ sent V ops g [(kSTART, x)] kEND <> [] /\
+     exists m, get_merge V ops (collect (sent V ops g [(kSTART, x)] kEND)) = Ok m /\ v = pre_node V ops g kEND m)
+    \/
+    (exists n ls results sublog,
+       reachable V St ops exec (nest_sub V St ops exec sched f F) sched p g x s n ls /\
+       submit V St ops exec (nest_sub V St ops exec sched f F) p g (ls_next V St ls) (ls_st V St ls) = (results, sublog, s') /\
+       sent V ops g (task_outputs V results) kEND <> [] /\
+       (exists m, get_merge V ops (collect (sent V ops g (task_outputs V results) kEND)) = Ok m
+                  /\ v = pre_node V ops g kEND m) /\
+       l = ls_log V St ls ++ [step_entry V p (ls_next V St ls)] ++ sublog /\
+       sent V ops g [(kSTART, x)] kEND = [] /\
+       (forall m lsm rm sm stm, (m < n)%nat ->
+          reachable V St ops exec (nest_sub V St ops exec sched f F) sched p g x s m lsm ->
+          submit V St ops exec (nest_sub V St ops exec sched f F) p g (ls_next V St lsm) (ls_st V St lsm) = (rm, sm, stm) ->
+          sent V ops g (task_outputs V rm) kEND = [])).
+Proof. exact pregel_nest_end_first. Qed.
+Print Assumptions pregel_end_first_nested.
 
 (* ---------- subgraph_is_function ---------- *)
 (* a graph run at a node path is the same graph run alone at the root (its lambdas being those found at that
@@ -261,6 +313,45 @@ Theorem chain_node_failure :
     (Fail (e :: es) (lg ++ [step_entry V p [(sn_key n, v)]] ++ l), s').
 Proof. exact eval_node_stage_fail. Qed.
 Print Assumptions chain_node_failure.
+
+(* "parallel stages merged by key", for the harness values: the fan-in of the maps {k_i : v_i} with pairwise
+   distinct keys is the map of all (k_i, v_i) in key order; a key occurring twice is the duplicated-key error *)
+Theorem parallel_merged_by_key :
+  forall (xs : list (key * (N * value))),
+    NoDup (map (fun x => fst (snd x)) xs) ->
+    tree_merge (map (fun x => (fst x, VMap [snd x])) xs) = Ok (VMap (collect (map snd xs))).
+Proof. exact tree_merge_by_key. Qed.
+Print Assumptions parallel_merged_by_key.
+
+Theorem parallel_duplicate_key :
+  forall (xs ys : list (key * (N * value))) s1 s2 k v1 v2,
+    NoDup (map (fun x => fst (snd x)) xs) -> ~ In k (map (fun x => fst (snd x)) xs) ->
+    tree_merge (map (fun x => (fst x, VMap [snd x])) (xs ++ (s1, (k, v1)) :: (s2, (k, v2)) :: ys)) = Err eDupKey.
+Proof. exact tree_merge_dup_key. Qed.
+Print Assumptions parallel_duplicate_key.
+
+(* ---------- what the correspondence evaluates ---------- *)
+(* the model side of Corr/C01.v is the nested engine on the root graph: an instance of run_nest / run_flat,
+   the functions all theorems above are about *)
+Theorem corr_model_is_engine :
+  forall fails g F x,
+    tree_run fails (g :: F) x =
+    fst (run_nest value unit tree_ops (tree_exec fails) sched_first (S (List.length (g :: F))) (g :: F) [] g x tt).
+Proof. exact tree_run_is_run_nest. Qed.
+Print Assumptions corr_model_is_engine.
+
+(* for a case whose root is a well-formed chain, the two things Corr/C01.v compares the observation with (the
+   engine model on the lowered forest, and eval_chain with the nested engine for sub-graph nodes) are equal *)
+Theorem corr_chain_ties_agree :
+  forall fails sts max ds x,
+    chain_wf sts ->
+    let F := lower_forest (GChain sts max :: ds) in
+    tree_run fails F x =
+    fst (eval_chain value unit tree_ops (tree_exec fails)
+                    (nest_sub value unit tree_ops (tree_exec fails) sched_first (List.length F) F)
+                    [] sts max x tt).
+Proof. exact chain_case_run_is_eval. Qed.
+Print Assumptions corr_chain_ties_agree.
 
 (* ================= non-vacuity ================= *)
 (* a cyclic graph: START -> 2 -> 3, 3 branches back to 2 or to END depending on the size of its output *)
@@ -339,4 +430,15 @@ Proof.
     + eexists. split; [reflexivity|]. intros b [<-|[]]. vm_compute. intros x [<-|[]]; simpl; auto.
   - split; [apply Permutation_rev|]. split; [|vm_compute; reflexivity].
     repeat constructor.
+Qed.
+
+(* hypothesis of pregel_limit_exact: with limit 3 the cyclic graph has a state reachable in 3 supersteps *)
+Example ex_limit_reachable :
+  exists ls, reachable value unit tree_ops (tree_exec []) (nest_sub value unit tree_ops (tree_exec []) sched_first 1 [ex_cycle 3])
+                       sched_first [] (ex_cycle 3) (VAtom 1) tt (max_steps (ex_cycle 3)) ls.
+Proof.
+  eexists. eexists. eexists. split; [vm_compute; reflexivity|]. split; [vm_compute; reflexivity|].
+  change (max_steps (ex_cycle 3)) with 3%nat.
+  econstructor; [vm_compute; reflexivity|]. econstructor; [vm_compute; reflexivity|].
+  econstructor; [vm_compute; reflexivity|]. constructor.
 Qed.
